@@ -48,6 +48,20 @@ theorem SrvWF.botNickOK {s : Srv} (h : SrvWF s) : NickOK s.bot := by
   obtain ⟨u, hu, hn⟩ := h.bot
   rw [← hn]; exact (h.uok hu).nick
 
+/-- a message of a command without `Irc`-level handler from a known user -/
+theorem feed_from_user {s : Srv} {b : Bot} (hw : SrvWF s) (hc : Coupled s b) {k : Str} {u : SUser}
+    (hu : aget s.users k = some u) (cmd : Str) (args : List Str)
+    (hns : cmd ∉ Gen.nickSetters) (hnn : cmd ≠ "NICK".toList)
+    (hirc : ∀ b0 : Bot, b0.ircCmd ⟨u.mask, cmd, args⟩ = (b0, false)) :
+    Coupled s (b.seen u) ∧ (b.feed ⟨u.mask, cmd, args⟩).1 = ((b.seen u).stateCmd ⟨u.mask, cmd, args⟩).1 := by
+  have hbn : NickOK b.nick := by rw [hc.nick]; exact hw.botNickOK
+  have huo := hw.uok hu
+  have hne : u.mask ≠ b.nick := mask_ne_nick hbn
+  refine ⟨coupled_seen hc hu (hw.userOK hu).1 (fun _ => trivial), ?_⟩
+  rw [feed_plain b _ hne hns (by rw [hirc])]
+  rw [hirc, pfxUpd_user huo, prelude_user huo _ _ hnn]
+  rfl
+
 /-- a message of a command without `Irc`-level handler, from the server or from a known user:
 the bot runs the `IrcState` handler on a state that is still coupled -/
 theorem feed_from_source {s : Srv} {b : Bot} (hw : SrvWF s) (hc : Coupled s b) {src pfx : Str}
